@@ -390,6 +390,13 @@ def r4_jobs_clean(chk: Check):
                       "tags": ("tags", True), "clean": ("clean", True), "ready": ("ready", True), "fullpath": ("fullpath", True)}
             if t in simple:
                 return simple[t]
+            if n.kind == "test" and t.endswith(" is None") and t != "info.state is None":
+                from ..dataflow import none_test_under
+
+                basic = lambda m: simple.get(src(m.ast))
+                v = none_test_under(rd, g, n, basic, sc)
+                if v is not None:
+                    return ("#c", v)
             if t == "info.state is None":
                 return ("#c", st == "None")
             if t == "info.state":
